@@ -141,3 +141,165 @@ Example c02_example :
        EvWire (IFirst 1 0); EvWire (IFirst 2 1); EvWire (IFirst 3 2); EvWire (IFirst 4 3);
        EvResendBegin; EvWire (IReplay 1 0); EvWire (IReplay 2 1); EvWire (IReplay 3 2); EvResendEnd].
 Proof. exact c02_example_run. Qed.
+
+(* ====================================================================================================================
+   Clauses (5) and (6) at full strength, over the INSTRUMENTED semantics (Conc/SendConcG.v).
+   The original event trace has no event for connect / disconnect, for IsLoggedOn() changing, for an operation being
+   started, or for a dropQueued() of an empty queue, so "as long as the connection stays open" and "while the session
+   stays logged on" cannot be said about it.  SendConcG.v adds — without touching SendConc.v — a ghost trace [g_tr]
+   that interleaves the original events (GE e) with the markers GOut b, GLogged b, GOp t o, GQEmpty; one instrumented
+   step is one original step [cstep]; the step function never reads the ghost trace.
+   Specs: Conc/ConcSpecG.v.  Same quantifiers as c02_numbering: every number of application goroutines, every
+   session program (now INCLUDING connects and disconnects and any initial connection state), every schedule,
+   programs = the generated terms (and every program family passing the shape checks). *)
+From QF Require Import Conc.SendConcG Conc.ConcSpecG Conc.ConcStepG Conc.ConcMainG.
+
+(* the instrumentation is faithful: same schedules, same states, and the ghost trace without markers is the original one *)
+Theorem c02_instrumented_sound :
+  forall sh s0 sched gs,
+    greach sh (ginit s0) sched gs -> creach sh s0 sched (g_s gs) /\ gerase (g_tr gs) = c_trace (c_sh (g_s gs)).
+Proof. exact ginstr_sound. Qed.
+Theorem c02_instrumented_complete :
+  forall sh s0 sched s, creach sh s0 sched s -> exists gs, greach sh (ginit s0) sched gs /\ g_s gs = s.
+Proof. exact ginstr_complete. Qed.
+
+(* Clause (5), FULL: [c02_rstate_conn] runs the automaton of c02_rstate and additionally tracks the WINDOW "the
+   connection has been open ever since toSend was last seen empty": it starts at the initial state if connected and
+   whenever a dropQueued(), a sendQueued() or a connect leaves toSend empty while connected (marker GQEmpty; after a
+   connect the engine sends its Logon through dropAndSend, whose dropQueued() does exactly that), and it ends at a
+   disconnect.  In every window of every run: inside one resendMessages execution no first-time item reaches the wire
+   after a replayed one, and a replayed stored message reaches the wire only inside such an execution.
+   No hypothesis on the session program or on the initial connection state any more (compare
+   c02_replay_exclusion_partial).  Outside the window — i.e. about what was left in toSend across a disconnect and
+   not yet dropped — nothing is claimed, and nothing can be: c02_replay_exclusion_unconditional_refuted. *)
+Theorem c02_replay_exclusion_while_connected :
+  forall persist logged open room sess apps sched gs,
+    forallb cop_ok sess = true -> cmsgs_ok apps = true ->
+    greach gen_send_shape (ginit (cinit persist logged open room sess apps)) sched gs ->
+    c02_replay_excl_conn open (g_tr gs).
+Proof. exact c02g_replay_gen. Qed.
+
+Theorem c02_replay_exclusion_while_connected_any_shape :
+  forall sh persist logged open room sess apps sched gs,
+    check_shape sh = true -> forallb cop_ok sess = true -> cmsgs_ok apps = true ->
+    greach sh (ginit (cinit persist logged open room sess apps)) sched gs ->
+    c02_replay_excl_conn open (g_tr gs).
+Proof. exact c02g_replay_of_shape. Qed.
+
+(* on runs that never touch the connection the windowed automaton IS c02_rstate (so the theorem above contains
+   c02_replay_exclusion_partial's conclusion for those runs) *)
+Theorem c02_replay_window_is_rstate_when_always_open :
+  forall gtr, (forall b, ~ In (GOut b) gtr) ->
+    c02_rstate_conn true gtr = match c02_rstate (gerase gtr) with Some st => Some ((true, true), st) | None => None end.
+Proof. exact crconn_always_open. Qed.
+
+(* The clause WITHOUT the connection window is false of the model: a ResendRequest answered while disconnected leaves
+   its replay in toSend; after the reconnect a second resendMessages execution — connection open during all of it —
+   transmits 1, replay 1, 2, replay 1.  (Not a defect of the engine: it sends a Logon through dropAndSend after every
+   connect, which empties toSend; the model's session programs are arbitrary.) *)
+Theorem c02_replay_exclusion_unconditional_refuted :
+  exists sess apps sched s,
+    forallb cop_ok sess = true /\ cmsgs_ok apps = true /\
+    creach gen_send_shape (cinit true true true 100 sess apps) sched s /\
+    rev (c_trace (c_sh s)) =
+      [EvAssign 1; EvSaved 1 0; EvResendBegin; EvResendEnd; EvAssign 2; EvSaved 2 1;
+       EvResendBegin; EvWire (IFirst 1 0); EvWire (IReplay 1 0); EvWire (IFirst 2 1); EvWire (IReplay 1 0); EvResendEnd] /\
+    c02_replay_excl_b (c_trace (c_sh s)) = false.
+Proof. exact c02g_replay_needs_window. Qed.
+
+(* the additional shape conditions of clause (6) hold of the generated programs (re-checked by the kernel on every run):
+   queueForSend never calls dropQueued(); sendInReplyTo, SendAppMessages and resendMessages do not on the paths taken
+   when IsLoggedOn() is true; none of the seven programs changes IsLoggedOn() *)
+Theorem c02_shape_logged_ok : check_shape_logged gen_send_shape = true.
+Proof. exact shape_logged_ok. Qed.
+
+(* Clause (6), safety form, FULL: [c02_logged_window logged gtr = Some w] says the session is inside a LOGGED-ON
+   WINDOW — IsLoggedOn() has been true since the window started (at a GLogged true, or at the initial state) and none
+   of the logon/logout/reset-phase operations dropAndSend, dropAndReset, handleLogon has been started since — and w
+   is the list of original events of the window.  In every such window of every run NOTHING IS DROPPED: no EvDrop in
+   w, and every number consumed in w (since the last reset, should there be one) is on the wire, or in toSend, or in
+   the hands of the sendMutex holder (built and saved, about to be appended).  The hypothesis [c02_no_drop] of
+   c02_flush_complete_partial is gone: it is now a conclusion.
+   What remains unprovable in this model is only the liveness reading ("is eventually on the wire"): no fairness. *)
+Theorem c02_nothing_dropped_while_logged_on :
+  forall persist logged open room sess apps sched gs w,
+    forallb cop_ok sess = true -> cmsgs_ok apps = true ->
+    greach gen_send_shape (ginit (cinit persist logged open room sess apps)) sched gs ->
+    c02_logged_window logged (g_tr gs) = Some w ->
+    ~ In EvDrop w /\ c02_conserved (g_s gs) w.
+Proof. exact c02g_conserved_gen. Qed.
+
+Theorem c02_nothing_dropped_while_logged_on_any_shape :
+  forall sh persist logged open room sess apps sched gs w,
+    check_shape sh = true -> check_shape_logged sh = true -> forallb cop_ok sess = true -> cmsgs_ok apps = true ->
+    greach sh (ginit (cinit persist logged open room sess apps)) sched gs ->
+    c02_logged_window logged (g_tr gs) = Some w ->
+    ~ In EvDrop w /\ c02_conserved (g_s gs) w.
+Proof. exact c02g_conserved_of_shape. Qed.
+
+(* flush completeness inside the window, as a state property (no flush step, no room condition, no no-drop
+   hypothesis): whenever toSend is empty and no goroutine is inside the sendMutex critical section, every number
+   consumed in the window has been transmitted *)
+Theorem c02_flush_complete_while_logged_on :
+  forall persist logged open room sess apps sched gs w,
+    forallb cop_ok sess = true -> cmsgs_ok apps = true ->
+    greach gen_send_shape (ginit (cinit persist logged open room sess apps)) sched gs ->
+    c02_logged_window logged (g_tr gs) = Some w ->
+    c_q (c_sh (g_s gs)) = [] -> c_owner (c_sh (g_s gs)) = None ->
+    forall n, In n (c02_epoch_assigned w) -> In n (c02_epoch_firsts w).
+Proof. exact c02g_quiescent_gen. Qed.
+
+(* the step form (c02_flush_complete_partial) with its no-drop hypothesis replaced by "the step ends inside a
+   logged-on window": right after a sendQueued that could send everything (connected; blocking, or messageOut has
+   room for the whole queue) every number consumed in the window is on the wire *)
+Theorem c02_flush_complete_step_while_logged_on :
+  forall persist logged open room sess apps sched gs t ch gs' l b rest w,
+    forallb cop_ok sess = true -> cmsgs_ok apps = true ->
+    greach gen_send_shape (ginit (cinit persist logged open room sess apps)) sched gs ->
+    cthr (g_s gs) t l -> th_pc l = SFlush b :: rest -> gstep gen_send_shape gs t ch = Some gs' ->
+    c_open (c_sh (g_s gs)) = true -> (b = true \/ (length (c_q (c_sh (g_s gs))) <= c_room (c_sh (g_s gs)))%nat) ->
+    c02_logged_window logged (g_tr gs') = Some w ->
+    forall n, In n (c02_epoch_assigned w) -> In n (c02_epoch_firsts w).
+Proof. exact c02g_flush_step_gen. Qed.
+
+(* why starting dropAndSend must end the window: with IsLoggedOn() true throughout, dropAndSend (reached in the engine
+   through inSession.FixMsgIn -> handleLogon -> sendLogonInReplyTo on an acceptor that receives a Logon while in
+   session) drops a queued message whose number was consumed; it is never transmitted first-time *)
+Example c02_dropsend_drops_while_logged_on :
+  exists sess apps sched s,
+    forallb cop_ok sess = true /\ cmsgs_ok apps = true /\
+    creach gen_send_shape (cinit true true true 100 sess apps) sched s /\
+    c_logged (c_sh s) = true /\ c_q (c_sh s) = [] /\ c_owner (c_sh s) = None /\
+    rev (c_trace (c_sh s)) = [EvAssign 1; EvSaved 1 0; EvAssign 2; EvSaved 2 1; EvDrop; EvWire (IFirst 2 1)].
+Proof. exact c02g_dropsend_drops_while_logged_on. Qed.
+
+(* the boolean form of the windowed clause (5) decides the Prop form *)
+Theorem c02_replay_excl_conn_decided :
+  forall open0 gtr, c02_replay_excl_conn_b open0 gtr = true <-> c02_replay_excl_conn open0 gtr.
+Proof. exact c02_replay_excl_conn_b_iff. Qed.
+
+(* non-vacuity of the two window theorems: one application message sent; disconnect; logout; a message queued while
+   logged out; reconnect; Logon through dropAndSend (drops the queued message: EvDrop OUTSIDE any logged-on window;
+   its dropQueued() restarts the connection window: GQEmpty after GOut true); logon; a heartbeat; a replay of 1..4; a message left in toSend.
+   At the end the run is inside both windows, the logged-on window holds numbers 4 (on the wire) and 5 (in toSend). *)
+Example c02_window_example :
+  forallb cop_ok c02g_ex_sess = true /\ cmsgs_ok c02g_ex_apps = true /\
+  match grun gen_send_shape (ginit (cinit true true true 100 c02g_ex_sess c02g_ex_apps)) c02g_ex_sched with
+  | Some gs =>
+      rev (g_tr gs) =
+        [GOp 1 (OQueue (MApp false)); GE (EvAssign 1); GE (EvSaved 1 0); GOp 0 OFlush; GE (EvWire (IFirst 1 0)); GQEmpty;
+         GOp 0 (OSetOut false 0); GOut false; GQEmpty; GOp 0 (OSetLogged false); GLogged false;
+         GOp 2 (OQueue (MApp false)); GE (EvAssign 2); GE (EvSaved 2 1); GOp 0 (OSetOut true 100); GOut true;
+         GOp 0 (ODropSend (MLogon false)); GE (EvAssign 3); GE (EvSaved 3 2); GE EvDrop; GQEmpty; GE (EvWire (IFirst 3 2)); GQEmpty;
+         GOp 0 (OSetLogged true); GLogged true; GOp 0 (OSend MAdmin); GE (EvAssign 4); GE (EvSaved 4 3);
+         GE (EvWire (IFirst 4 3)); GQEmpty; GOp 0 (OResend 1 4 []); GE EvResendBegin; GE (EvWire (IReplay 1 0)); GQEmpty;
+         GE (EvWire (IReplay 2 1)); GQEmpty; GE (EvWire (IGap 3 5)); GQEmpty; GE EvResendEnd; GOp 0 OFlush; GQEmpty;
+         GOp 2 (OQueue (MApp false)); GE (EvAssign 5); GE (EvSaved 5 4)] /\
+      c02_rstate_conn true (g_tr gs) = Some ((true, true), (false, false)) /\
+      c02_logged_window true (g_tr gs) =
+        Some [EvSaved 5 4; EvAssign 5; EvResendEnd; EvWire (IGap 3 5); EvWire (IReplay 2 1); EvWire (IReplay 1 0);
+              EvResendBegin; EvWire (IFirst 4 3); EvSaved 4 3; EvAssign 4] /\
+      c_q (c_sh (g_s gs)) = [IFirst 5 4]
+  | None => False
+  end.
+Proof. exact c02g_example_run. Qed.
